@@ -299,3 +299,31 @@ def flow_forces_apply(K):
         K.ensures_eq(f"external_force_gains_the_flow_force{list(idx)}", sysm.external_forces[idx], f0[idx] + it.body_flow_forces[idx])
     for idx in np.ndindex(3, 2):
         K.ensures_eq(f"external_torque_gains_the_flow_torque{list(idx)}", sysm.external_torques[idx], t0[idx] + it.body_flow_torques[idx])
+
+
+@unit("brinkmann_penalise_lagrangian", props=("C19",), kernels=False, configs=[dict(dim=2), dict(dim=3)])
+def brinkmann_penalise_lagrangian(K, dim):
+    """Lagrangian variant of the Brinkmann penalisation (real static method, njit neutralised):
+    out = theta u + (1 - theta) u_body with theta = 1/(1 + lambda dt) in (0, 1]; out = u for lambda dt = 0;
+    |out - u_body| (1 + lambda dt) = |u - u_body| (tends to the target as the penalty grows)."""
+    if K.mode != "sym":
+        return None
+    from svx import objnp
+    mod = "sopht.numeric.immersed_boundary_ops.experimental.BrinkmannBoundaryForcing"
+    with object_array_modules(mod):
+        cls = K.repo(f"{mod}:BrinkmannBoundaryForcing")
+        fn = cls.brinkmann_penalise_lag_grid_velocity_field
+        n = 3
+        u, ub = K.array("lag_grid_flow_velocity_field", (dim, n)), K.array("lag_grid_body_velocity_field", (dim, n))
+        out = objnp.fresh("stale_penalised", (dim, n))
+        lam, dt = K.real("brinkmann_coeff", nonneg=True), K.real("dt", nonneg=True)
+        fn(out, u, ub, lam, dt)
+    K.array_unchanged("flow_velocity_untouched", u)
+    K.array_unchanged("body_velocity_untouched", ub)
+    theta = 1 / (1 + lam * dt)
+    K.ensures("theta_in_(0,1]", and_(theta > 0, theta <= 1))
+    for idx in np.ndindex(dim, n):
+        o, a, b = S_(out[idx]), K.aold(u, idx), K.aold(ub, idx)
+        K.ensures_eq(f"convex_combination{list(idx)}", o, theta * a + (1 - theta) * b)
+        K.ensures_eq(f"identity_for_zero_penalty{list(idx)}", o, a, when=(lam * dt == 0))
+        K.ensures_eq(f"distance_to_target_contracts{list(idx)}", (o - b) * (1 + lam * dt), a - b)
